@@ -40,9 +40,19 @@ type Case struct {
 var Types = []string{"int8", "uint16", "int32", "int64", "float32", "float64", "NInt16", "NFloat32"}
 
 const (
-	nReadOps  = 11
-	nWriteOps = 6
+	nReadOps  = 12
+	nWriteOps = 7
 )
+
+// twin: the element type of the same width on the other side (signed <-> unsigned, float32 <->
+// float64) when the conversion table has both directions; "" otherwise.
+func twin(t string) string {
+	tw := map[string]string{"int8": "uint8", "uint16": "int16", "int32": "uint32", "int64": "uint64", "float32": "float64", "float64": "float32"}[t]
+	if tw == "" || convtab.Lookup(t, tw) == nil || convtab.Lookup(tw, t) == nil {
+		return ""
+	}
+	return tw
+}
 
 // other element type used as private conversion partner
 func partner(t string) string {
@@ -147,6 +157,15 @@ func readStep(c *Case, shared kit.AnyBuf, code, r, k int) string {
 		}
 		out, n := shared.ReadStripedVals(lens)
 		return sRows(out) + " " + strconv.Itoa(n)
+	case 11: // conversion source into a private destination of the same-width twin type
+		tw := twin(c.T)
+		if tw == "" {
+			return "-"
+		}
+		v := shared.Slice(0, c.RO)
+		dst := kit.AllocAny(tw, signal.Allocator{Channels: C, Length: c.RO, Capacity: c.RO})
+		n := convtab.Lookup(c.T, tw).Convert(v, dst)
+		return sVals(dst.Snap()) + " " + strconv.Itoa(n)
 	default: // short interleaved read straight from the shared header (only read-only positions are touched)
 		out, n := shared.ReadVals(kit.Min(c.C*c.RO, 1+k%5))
 		return sVals(out) + " " + strconv.Itoa(n)
@@ -166,7 +185,7 @@ func writeStep(c *Case, shared kit.AnyBuf, code, w, k int) {
 	if k%3 == 1 || fr == 0 {
 		long = 2
 	}
-	if op := code % nWriteOps; fr == 0 && op != 1 && op != 2 && op != 3 {
+	if op := code % nWriteOps; fr == 0 && op != 1 && op != 2 && op != 3 && op != 6 {
 		return // nothing to address in an empty window
 	}
 	switch code % nWriteOps {
@@ -201,6 +220,20 @@ func writeStep(c *Case, shared kit.AnyBuf, code, w, k int) {
 			}
 		}
 		convtab.Lookup(pt, c.T).Convert(src, win)
+	case 6: // conversion destination from a private source of the same-width twin type
+		tw := twin(c.T)
+		if tw == "" || fr == 0 {
+			return
+		}
+		src := kit.AllocAny(tw, signal.Allocator{Channels: C, Length: fr + long, Capacity: fr + long})
+		for i := 0; i < src.Len(); i++ {
+			if kit.Info(tw).Kind == kit.Float {
+				src.Set(i, kit.FV(float64((w+k+i)%9-4)/8))
+			} else {
+				src.Set(i, kit.IV(int64((w*11+k*5+i)%100)))
+			}
+		}
+		convtab.Lookup(tw, c.T).Convert(src, win)
 	case 4:
 		win.Channel((w+k)%C).SetSample(k%fr, val(1))
 	default: // read back own window (a writer may read what it owns)
